@@ -7,6 +7,8 @@ the chain its MetaData calls are attached (c), and whether chained Select/Where 
 fused (d).
 -/
 import FaxVerif.C08.Proofs
+import FaxVerif.C08.MdTheorems
+import FaxVerif.C08.ExtTheorems
 namespace FaxVerif.C08
 
 /-! ## (b) bound names -/
